@@ -91,7 +91,9 @@ struct IWrap {
     template <class F> bool insert( Item const& i, F f ) { node* n = make( i ); bool ok = l.insert( *n, f ); n->linked = ok ? 1 : 0; if ( ok ) remember( n ); return ok; }
     // Replaces: containers whose update() swaps the new item in - the item is linked whenever the call succeeded
     template <class F> std::pair<bool, bool> update( Item const& i, F f, bool allow )
-    { node* n = make( i ); auto r = l.update( *n, f, allow ); n->linked = ( Replaces ? r.first : r.second ) ? 1 : 0; return r; }
+    { node* n = make( i ); auto r = do_update( l, *n, f, allow, 0 ); n->linked = ( Replaces ? r.first : r.second ) ? 1 : 0; return r; }
+    template <class S, class F> static auto do_update( S& s, node& n, F f, bool allow, int ) -> decltype( s.update( n, f, allow )) { return s.update( n, f, allow ); }
+    template <class S, class F> static std::pair<bool, bool> do_update( S& s, node& n, F, bool allow, long ) { return s.update( n, allow ); }    // FeldmanHashSet: no functor
     bool erase( int k ) { return l.erase( k ); }
     template <class F> bool erase( int k, F f ) { return l.erase( k, f ); }
     bool contains( int k ) { return l.contains( k ); }
